@@ -75,7 +75,7 @@ CLAIMED = {
    "Trusted: the re-enactment of main() in the harness for (a) (kept line-for-line; (b) runs the real main); access-log paths are redirected into the scratch directory; stack depth is that of the dev-profile binary (2 MB worker threads), the deepest configuration in use.",
    "proptest structural mutation fuzzing of configuration trees and JSON bodies against the loader and the real binary + bounded enumeration of a size ladder, oracle = Ok/Err with message, no panic / signal, liveness after traffic", "§3 C18"),
  "C10": ("vp-e2e", "exploration",
-   "Two real proxies (A in front of B): all 3 x 5 UDP listener x upstream pairings (SOCKS5 UDP ASSOCIATE with enforceUdpClient off/on, reverse-UDP, HTTP CONNECT with inline RPFM frames) x (direct, socks5->B, http->B, QUIC datagrams->B, QUIC inline->B) once each, then 30 (quick) / 1 500 (thorough) generated cases of 1-5 interleaved sessions sending datagrams of 0..65000 bytes to three tagging echo origins, incl. clients that vanish while a reply is in flight and bursts of up to six datagrams sent back to back (inline: in one write); every datagram must reach the addressed origin exactly once unmodified (also the first of a session and multi-fragment ones), every reply must return to the owning client labelled with the replying origin, and no origin may receive a datagram nobody sent.",
+   "Two real proxies (A in front of B): all 3 x 5 UDP listener x upstream pairings (SOCKS5 UDP ASSOCIATE with enforceUdpClient off/on, reverse-UDP, HTTP CONNECT with inline RPFM frames) x (direct, socks5->B, http->B, QUIC datagrams->B, QUIC inline->B) once each, then 30 (quick) / 700 (thorough) generated cases of 1-5 interleaved sessions sending datagrams of 0..65000 bytes to three tagging echo origins, incl. clients that vanish while a reply is in flight and bursts of up to six datagrams sent back to back (inline: in one write); every datagram must reach the addressed origin exactly once unmodified (also the first of a session and multi-fragment ones), every reply must return to the owning client labelled with the replying origin, and no origin may receive a datagram nobody sent.",
    "Trusted: loopback does not lose or reorder datagrams at the pacing used (one outstanding datagram per session); refcodec for the SOCKS5-UDP header and RPFM frames. TPROXY UDP is not set up. In this sandbox an ICMP port-unreachable is not delivered to the proxy's connected session socket, so the receive-error path of UdpFrameReader is not reachable.",
    "stateful generated sessions against real processes, oracle = multiset equality of datagrams per origin + reply labelling", "§3 C10"),
  "C07": ("both", "fault_enumeration",
